@@ -87,6 +87,9 @@ func c22(c *Ctx) {
 			}
 		}
 		c.Expect(okArg, nil, w, "finishes-with-context-status", "the watcher does not finish the stream with the context's error converted to a status")
+		// the watcher never gives up silently: whatever wakes it, it finishes the stream
+		// (it must outlive retries: a later attempt is cancelled only through it)
+		c.MustPass("watcher-exits-only-by-finishing-the-stream", pathQuery{Fn: w, Starts: []ssa.Instruction{sel}, Barrier: isCallTo(Callee("grpc", "clientStream.finish")), Target: isReturn}, sel)
 		// started only for RPCs that can outlive the call (streaming), i.e. desc != unaryStreamDesc
 		c.inst("watcher goroutine " + shortName(w))
 	})
